@@ -586,6 +586,27 @@ Proof.
   intros Hf; cbn [step]; rewrite Hf; eexists; (split; [reflexivity|]); cbn; eapply find_a_upd; eassumption.
 Qed.
 
+(* a start that failed before the serve loop leaves the server unstarted:
+   Shutdown returns the not-started error at once, a new start succeeds *)
+Lemma failed_start_unstarted s s' j i :
+  step s SFailStart = Some s' ->
+  ph s' = Fresh /\ serve s' = SNone /\ shut s' = shut s /\ workers s' = workers s /\
+  (find_a j (sds s') = Some SdPending ->
+   exists s1 s2, step s' (SdAtomic j) = Some s1 /\ step s1 (SdReturn j ResNotStarted) = Some s2 /\
+                 find_a j (sds s2) = Some (SdDone ResNotStarted)) /\
+  (find_a i (sts s') = Some StPending ->
+   exists s1, step s' (StAtomic i) = Some s1 /\ ph s1 = Running /\ serve s1 = SInit).
+Proof.
+  intros H. cbn [step] in H.
+  destruct (serve s) eqn:Es; try discriminate. destruct (md s) eqn:Em; try discriminate.
+  destruct (ph s) eqn:Ep; try discriminate. inversion H; subst; clear H. cbn.
+  repeat split.
+  - intros Hf. assert (Hp : ph (set_sts (set_serve (set_ph s Fresh) SNone)
+        (map (fun x => match snd x with StServing => (fst x, StDone) | _ => x end) (sts s))) <> Running) by (cbn; discriminate).
+    destruct (shutdown_unstarted _ j Hp Hf) as [s1 [s2 [A [B [C _]]]]]. eauto.
+  - intros Hf. cbn [step sts set_sts]. rewrite Hf. cbn. eexists. repeat split.
+Qed.
+
 (* ---------------------------------------------------------- non-vacuity *)
 Definition ex_tcp_trace : list label :=
   [StInvoke 0; StAtomic 0; Notify; SCheck; SAcceptOk 1; SSpawn; WCheck 1; WSetDl 1; Req 1; HEnter 1;
@@ -633,3 +654,14 @@ Proof. vm_compute. reflexivity. Qed.
 Example ex_rejects_early_return :
   accepts UDP [StInvoke 0; Notify; SPacket 1; HEnter 1; SdInvoke 0; SdReturn 0 ResNil] = inl 5.
 Proof. vm_compute. reflexivity. Qed.
+
+Example ex_failed_start :
+  exists s, run (init UDP) [StInvoke 0; StAtomic 0; SFailStart; SdInvoke 1; SdAtomic 1; SdReturn 1 ResNotStarted;
+                            StInvoke 2; StAtomic 2; Notify] = Some s /\
+            ph s = Running /\ serve s = SLoop /\ In (1, SdDone ResNotStarted) (sds s).
+Proof. match goal with |- exists s, ?r = Some s /\ _ => remember r as rr eqn:E; vm_compute in E; subst rr end. eexists. split; [reflexivity|]. cbn. auto. Qed.
+Example ex_accepts_failed_start :
+  (exists n, accepts UDP [StInvoke 0; SFailStart; SdInvoke 1; SdReturn 1 ResNotStarted; StInvoke 2; Notify] = inr (Some n))
+  /\ (exists n, accepts_red UDP [StInvoke 0; SFailStart; SdInvoke 1; SdReturn 1 ResNotStarted; StInvoke 2; Notify] = inr (Some n))
+  /\ accepts UDP [StInvoke 0; SFailStart; SdInvoke 1; SdReturn 1 ResNil] = inl 3.
+Proof. vm_compute. repeat split; eexists; reflexivity. Qed.
